@@ -224,7 +224,7 @@ def sufficiency(ctx, rule):
     from .. import uscan
     sc = targets.scan(ctx, 'Container._transfer')
     uscan.report_sinks(ctx, lambda cat: rule if cat in ('sum-mix', 'convert-from-unit', 'add-units', 'compare-units',
-                                                            'to-storage', 'storage-label') else None, sc)
+                                                            'to-storage', 'storage-label', 'round-then-scale') else None, sc)
 
     ctx.count('ratio_branches', len(options))
     return tr, fft, ratio_val, loop, loop_state
